@@ -8,7 +8,8 @@
 # is reused between calls (warm target dir) and must be removed by the caller at the end.
 set -u
 D="$(readlink -f "$1")"; WHERE="$2"; shift 2
-W=/tmp/confirm_wt
+W=${CONFIRM_WT:-/tmp/confirm_wt}
+L=$W.log
 # run cargo test in a private network namespace when possible: the integration tests use real
 # multicast on port 5353 and see the traffic of every other job on the machine otherwise
 if unshare -n true 2>/dev/null; then NS="unshare -n sh /verif/tools/netns_run.sh"; else NS=""; fi
@@ -21,16 +22,16 @@ place() {
   esac
 }
 place
-if $NS cargo test --offline "$@" >/tmp/confirm_demo0.log 2>&1; then echo "demo on unmodified tree: PASS"; ok0=1; else echo "demo on unmodified tree: FAIL (unexpected)"; ok0=0; fi
+if $NS cargo test --offline "$@" >$L.demo0 2>&1; then echo "demo on unmodified tree: PASS"; ok0=1; else echo "demo on unmodified tree: FAIL (unexpected)"; ok0=0; fi
 git checkout -q -- . && git clean -fdq -e target
 git apply "$D/patch.diff" || { echo "patch does not apply"; exit 2; }
-if cargo build --offline >/tmp/confirm_build.log 2>&1; then echo "build with change: OK"; okb=1; else echo "build with change: FAILED"; okb=0; fi
+if cargo build --offline >$L.build 2>&1; then echo "build with change: OK"; okb=1; else echo "build with change: FAILED"; okb=0; fi
 oks=0
 for i in 1 2 3; do
-  if $NS cargo test --workspace --no-fail-fast --offline >/tmp/confirm_suite.log 2>&1; then oks=1; echo "existing suite with change: PASS (attempt $i)"; break; fi
-  echo "existing suite with change: attempt $i failed: $(grep -E '^test .* FAILED' /tmp/confirm_suite.log | tr '\n' ' ' | cut -c1-300)"
+  if $NS cargo test --workspace --no-fail-fast --offline >$L.suite 2>&1; then oks=1; echo "existing suite with change: PASS (attempt $i)"; break; fi
+  echo "existing suite with change: attempt $i failed: $(grep -E '^test .* FAILED' $L.suite | tr '\n' ' ' | cut -c1-300)"
 done
 place
-if $NS cargo test --offline "$@" >/tmp/confirm_demo1.log 2>&1; then echo "demo with change: PASS (unexpected)"; ok1=0; else echo "demo with change: FAIL (expected): $(grep -E 'panicked|FAILED' /tmp/confirm_demo1.log | head -2 | tr '\n' ' ' | cut -c1-300)"; ok1=1; fi
+if $NS cargo test --offline "$@" >$L.demo1 2>&1; then echo "demo with change: PASS (unexpected)"; ok1=0; else echo "demo with change: FAIL (expected): $(grep -E 'panicked|FAILED' $L.demo1 | head -2 | tr '\n' ' ' | cut -c1-300)"; ok1=1; fi
 git checkout -q -- . && git clean -fdq -e target
 if [ $ok0 = 1 ] && [ $okb = 1 ] && [ $oks = 1 ] && [ $ok1 = 1 ]; then echo CONFIRMED; else echo NOT-CONFIRMED; exit 1; fi
